@@ -156,7 +156,9 @@ info('C09',
      'P: MPS.permute_sites, real source, every L and every permutation: with the swap as abstract leaf (ghost array content[k] = original '
      'index of the site now at k; swap_sites exchanges two neighbours and is called in range) the site that was at i ends at perm[i], '
      'the argument is not modified, the returned truncation error is the sum over the swaps performed (termination of the sort is not '
-     'proved); index normalisation and the form-exponent algebra of get_B/get_theta/convert_form (shared with C07). '
+     'proved); MPS.compress_svd, finite and infinite, every L, with the tensor operations abstract: the returned error is the sum of the '
+     'truncations performed with the given parameters, each bond exactly once, norm updated by exactly their renormalisation factors '
+     '(contracts/c_compress.py); index normalisation and the form-exponent algebra of get_B/get_theta/convert_form (shared with C07). '
      'B (bounded, not proof): apply_local_op/apply_product_op (incl. fermionic operators with JW strings, norm tracked), swap_sites, '
      'permute_sites (dense permutation with fermionic signs: old site i moves to perm[i] - the docstring said the inverse, F-45, corrected), '
      'add, group_sites+group_split, enlarge_chi, compress_svd (infidelity <= 2*reported eps), spatial_inversion (reversal, involution) '
